@@ -1,6 +1,6 @@
 (* C10 -- proofs about the signature / clef / measure map model (Model/C10.v). *)
 From PV Require Import Lib.Base Lib.Round Model.C02 Model.C10 Proofs.C02_lib Gen.C10_Tab.
-From Coq Require Import QArith.
+From Coq Require Import QArith Qabs.
 #[local] Open Scope Z_scope.
 
 (* the back-filled lookup is the plain scan with the first element's value as default *)
@@ -61,24 +61,61 @@ Proof.
 Qed.
 
 (* ------------------------------------------------------------- measures *)
+Lemma pickup_len_cases cp len :
+  pickup_len cp = Some len <->
+  exists s0 x e0 n0 r fb, c_meas cp = (s0, (x, e0, n0)) :: r /\ full_bar cp s0 = Some fb /\
+    (inject_Z (e0 - s0) < fb)%Q /\ len = round_half_even fb.
+Proof.
+  unfold pickup_len. split.
+  - destruct (c_meas cp) as [|[s0 [[x e0] n0]] r]; [discriminate|].
+    destruct (full_bar cp s0) as [fb|] eqn:Ef; [|discriminate].
+    destruct (Qltb (inject_Z (e0 - s0)) fb) eqn:E; [|discriminate].
+    intros H; inversion H; subst. exists s0, x, e0, n0, r, fb.
+    split; [reflexivity|]. split; [exact Ef|]. split; [|reflexivity].
+    unfold Qltb in E. apply negb_true_iff in E. apply Qle_bool_false. exact E.
+  - intros [s0 [x [e0 [n0 [r [fb [E [Ef [Hlt ->]]]]]]]]]. rewrite E, Ef.
+    unfold Qltb. destruct (Qle_bool fb (inject_Z (e0 - s0))) eqn:E2; [|reflexivity].
+    apply Qle_bool_iff in E2. exfalso. apply (Qlt_not_le _ _ Hlt). exact E2.
+Qed.
+
 Lemma meas_tbl_cases cp :
   meas_tbl cp = c_meas cp \/
   exists s0 x e0 n0 r fb, c_meas cp = (s0, (x, e0, n0)) :: r /\ full_bar cp s0 = Some fb /\
     (inject_Z (e0 - s0) < fb)%Q /\
     meas_tbl cp = (e0 - round_half_even fb, (e0 - round_half_even fb, e0, n0)) :: r.
 Proof.
-  unfold meas_tbl. destruct (c_meas cp) as [|[s0 [[x e0] n0]] r]; auto.
-  destruct (full_bar cp s0) as [fb|] eqn:Ef; auto.
-  destruct (Qltb (inject_Z (e0 - s0)) fb) eqn:E; auto.
-  right. exists s0, x, e0, n0, r, fb.
-  split; [reflexivity|]. split; [exact Ef|]. split; [|reflexivity].
-  unfold Qltb in E. apply negb_true_iff in E. apply Qle_bool_false. exact E.
+  unfold meas_tbl. destruct (pickup_len cp) as [len|] eqn:Ep.
+  - right. apply pickup_len_cases in Ep. destruct Ep as [s0 [x [e0 [n0 [r [fb [E [Ef [Hlt ->]]]]]]]]].
+    exists s0, x, e0, n0, r, fb. rewrite E. auto.
+  - left. destruct (c_meas cp) as [|[s0 [[x e0] n0]] r]; reflexivity.
 Qed.
 
-(* extent and number of the measure in force (the pickup row having been moved back a full bar) *)
+Lemma meas_tbl_pickup cp s0 x e0 n0 r len : c_meas cp = (s0, (x, e0, n0)) :: r ->
+  pickup_len cp = Some len -> meas_tbl cp = (e0 - len, (e0 - len, e0, n0)) :: r.
+Proof. intros E Ep. unfold meas_tbl. rewrite E, Ep. reflexivity. Qed.
+
+Lemma meas_tbl_nopickup cp : pickup_len cp = None -> meas_tbl cp = c_meas cp.
+Proof. intros Ep. unfold meas_tbl. rewrite Ep. destruct (c_meas cp) as [|[s0 [[x e0] n0]] r]; reflexivity. Qed.
+
+(* an integer below q is at most round(q) *)
+Lemma round_ge_of_lt z q : (inject_Z z < q)%Q -> z <= round_half_even q.
+Proof.
+  intros H. pose proof (round_half_even_near q) as N.
+  set (r := round_half_even q) in *.
+  apply Qabs_Qle_condition in N. destruct N as [N1 N2].
+  (* q - r <= 1/2  ->  z < q <= r + 1/2 *)
+  assert (inject_Z z < inject_Z r + half)%Q as L.
+  { eapply Qlt_le_trans; [exact H|].
+    setoid_replace q with ((q - inject_Z r) + inject_Z r)%Q by ring.
+    setoid_replace (inject_Z r + half)%Q with (half + inject_Z r)%Q by ring.
+    apply Qplus_le_compat; [exact N2 | apply Qle_refl]. }
+  unfold Qlt, Qplus, half, inject_Z in L. simpl in L. lia.
+Qed.
+
+(* the extent and number of the measure in force (the pickup row having been moved back a full bar) *)
 Theorem measure_maps_spec cp t s e n : keys_incr (meas_tbl cp) ->
   in_force (meas_tbl cp) t (s, e, n) ->
-  measure_map cp t = Some (s, e) /\ measure_number_map cp t = Some n.
+  measure_map cp t = Some (s, e) /\ measure_number_map cp t = n.
 Proof.
   intros Hs Hf. unfold measure_map, measure_number_map, meas_row, meas_row_of.
   destruct (meas_tbl cp) as [|[k0 v0] r] eqn:E; [destruct Hf as [k [[] _]]|].
@@ -87,6 +124,88 @@ Proof.
     - eapply prev_lookup_in_force; eauto.
     - exists k; auto. }
   simpl. auto.
+Qed.
+
+(* ---- well-formed measure lists: the row whose extent contains t is the row in force *)
+Lemma meas_wf_later : forall r k s e n, meas_wf ((k, (s, e, n)) :: r) ->
+  forall k' v', In (k', v') r -> e <= k'.
+Proof.
+  induction r as [|[k1 [[s1 e1] n1]] r IH]; intros k s e n H k' v' Hin; [inversion Hin|].
+  destruct H as [Hk [Hse [Hnext Hr]]]. destruct Hin as [E|Hin].
+  - inversion E; subst; auto.
+  - pose proof (IH k1 s1 e1 n1 Hr k' v' Hin). destruct Hr as [Hk1 [Hse1 _]]. lia.
+Qed.
+
+Lemma meas_wf_keys_incr : forall l, meas_wf l -> keys_incr l.
+Proof.
+  induction l as [|[k [[s e] n]] r IH]; intros H; [exact I|].
+  pose proof H as H'. destruct H as [Hk [Hse [Hnext Hr]]]. split; [|auto].
+  destruct r as [|[k1 v1] r']; [exact I|]. lia.
+Qed.
+
+Lemma meas_wf_row : forall l k s e n, meas_wf l -> In (k, (s, e, n)) l -> k = s /\ s < e.
+Proof.
+  induction l as [|[k0 [[s0 e0] n0]] r IH]; intros k s e n H Hin; [inversion Hin|].
+  destruct H as [Hk [Hse [_ Hr]]]. destruct Hin as [E|Hin]; [inversion E; subst; auto | eauto].
+Qed.
+
+Lemma meas_wf_max : forall l k s e n t, meas_wf l -> In (k, (s, e, n)) l -> s <= t < e ->
+  forall k' v', In (k', v') l -> k' <= t -> k' <= k.
+Proof.
+  induction l as [|[k0 [[s0 e0] n0]] r IH]; intros k s e n t H Hin Ht k' v' Hin' Hle; [inversion Hin|].
+  pose proof H as H'. destruct H as [Hk [Hse [Hnext Hr]]].
+  destruct Hin as [E|Hin]; destruct Hin' as [E'|Hin'].
+  - inversion E; inversion E'; subst; lia.
+  - inversion E; subst. pose proof (meas_wf_later _ _ _ _ _ H' _ _ Hin'). lia.
+  - inversion E'; subst. pose proof (meas_wf_later _ _ _ _ _ H' _ _ Hin).
+    destruct (meas_wf_row _ _ _ _ _ Hr Hin). lia.
+  - eapply IH; eauto.
+Qed.
+
+Lemma meas_wf_in_force l k s e n t : meas_wf l -> In (k, (s, e, n)) l -> s <= t < e ->
+  in_force l t (s, e, n).
+Proof.
+  intros H Hin Ht. destruct (meas_wf_row _ _ _ _ _ H Hin) as [-> Hse].
+  exists s. split; auto. split; [lia|]. eapply meas_wf_max; eauto.
+Qed.
+
+(* measure_map / measure_number_map return extent and number of the measure CONTAINING t *)
+Theorem measure_containing cp t k s e n : meas_wf (meas_tbl cp) ->
+  In (k, (s, e, n)) (meas_tbl cp) -> s <= t < e ->
+  measure_map cp t = Some (s, e) /\ measure_number_map cp t = n.
+Proof.
+  intros Hw Hin Ht. apply measure_maps_spec; [apply meas_wf_keys_incr; auto|].
+  eapply meas_wf_in_force; eauto.
+Qed.
+
+(* the pickup correction keeps the list well-formed / contiguous, and the corrected first measure
+   still covers the written one *)
+Lemma pickup_len_ge cp s0 x e0 n0 r len : c_meas cp = (s0, (x, e0, n0)) :: r ->
+  pickup_len cp = Some len -> e0 - s0 <= len.
+Proof.
+  intros E Ep. apply pickup_len_cases in Ep.
+  destruct Ep as [s0' [x' [e0' [n0' [r' [fb [E' [Ef [Hlt ->]]]]]]]]].
+  rewrite E in E'. inversion E'; subst. apply round_ge_of_lt. exact Hlt.
+Qed.
+
+Lemma meas_tbl_wf cp : meas_wf (c_meas cp) -> meas_wf (meas_tbl cp).
+Proof.
+  intros H. destruct (pickup_len cp) as [len|] eqn:Ep.
+  - destruct (c_meas cp) as [|[s0 [[x e0] n0]] r] eqn:E.
+    + unfold pickup_len in Ep. rewrite E in Ep. discriminate.
+    + rewrite (meas_tbl_pickup _ _ _ _ _ _ _ E Ep).
+      pose proof (pickup_len_ge _ _ _ _ _ _ _ E Ep) as Hge.
+      destruct H as [Hk [Hse [Hnext Hr]]]. simpl. repeat split; auto. lia.
+  - rewrite (meas_tbl_nopickup _ Ep). exact H.
+Qed.
+
+Lemma meas_tbl_contig cp : meas_contig (c_meas cp) -> meas_contig (meas_tbl cp).
+Proof.
+  intros H. destruct (pickup_len cp) as [len|] eqn:Ep.
+  - destruct (c_meas cp) as [|[s0 [[x e0] n0]] r] eqn:E.
+    + unfold pickup_len in Ep. rewrite E in Ep. discriminate.
+    + rewrite (meas_tbl_pickup _ _ _ _ _ _ _ E Ep). exact H.
+  - rewrite (meas_tbl_nopickup _ Ep). exact H.
 Qed.
 
 (* bars: consecutive barlines *)
@@ -119,26 +238,178 @@ Proof.
   unfold metpos, metpos_of. destruct (meas_tbl cp) as [|m1 [|m2 r]]; simpl; auto; lia.
 Qed.
 
+(* for contiguous measures the bar table has one row per measure: (start, (start, end - start)) *)
+Definition bar_row (row : Z * (Z * Z * option Z)) : Z * (Z * Z) :=
+  let '(k, (_, e, _)) := row in (k, (k, e - k)).
+
+Lemma bar_tbl_contig : forall mt d, meas_contig mt ->
+  bar_tbl (map fst mt ++ [last_end mt d]) = map bar_row mt.
+Proof.
+  induction mt as [|[k [[s e] n]] r IH]; intros d H; [reflexivity|].
+  destruct H as [Hnext Hr]. destruct r as [|[k1 [[s1 e1] n1]] r'].
+  - reflexivity.
+  - subst k1. specialize (IH e Hr).
+    change (map fst ((k, (s, e, n)) :: (e, (s1, e1, n1)) :: r') ++ [last_end ((k, (s, e, n)) :: (e, (s1, e1, n1)) :: r') d])
+      with (k :: (map fst ((e, (s1, e1, n1)) :: r') ++ [last_end ((e, (s1, e1, n1)) :: r') e])).
+    change (map bar_row ((k, (s, e, n)) :: (e, (s1, e1, n1)) :: r'))
+      with ((k, (k, e - k)) :: map bar_row ((e, (s1, e1, n1)) :: r')).
+    rewrite <- IH. reflexivity.
+Qed.
+
+Lemma bar_row_keys_incr : forall mt, keys_incr mt -> keys_incr (map bar_row mt).
+Proof.
+  induction mt as [|[k [[s e] n]] r IH]; intros H; [exact I|].
+  destruct H as [H1 H2]. split; [|auto].
+  destruct r as [|[k1 [[s1 e1] n1]] r']; [exact I|]. exact H1.
+Qed.
+
+(* metrical position = (distance of t from the start of the measure containing it, length of that measure) *)
+Theorem metpos_containing cp t k s e n m1 m2 r : meas_tbl cp = m1 :: m2 :: r ->
+  meas_wf (meas_tbl cp) -> meas_contig (meas_tbl cp) ->
+  In (k, (s, e, n)) (meas_tbl cp) -> s <= t < e ->
+  metpos cp t = (t - s, e - s).
+Proof.
+  intros E Hw Hc Hin Ht.
+  destruct (meas_wf_row _ _ _ _ _ Hw Hin) as [-> Hse].
+  assert (barlines cp = map fst (meas_tbl cp) ++ [last_end (meas_tbl cp) 0]) as Eb by reflexivity.
+  eapply metpos_spec; eauto.
+  - rewrite Eb, bar_tbl_contig by auto. apply bar_row_keys_incr, meas_wf_keys_incr; auto.
+  - rewrite Eb, bar_tbl_contig by auto.
+    exists s. split; [apply in_map_iff; exists (s, (s, e, n)); auto|]. split; [lia|].
+    intros k' v' Hin' Hle'. apply in_map_iff in Hin'.
+    destruct Hin' as [[k2 [[s2 e2] n2]] [E2 Hin2]]. inversion E2; subst.
+    eapply meas_wf_max; eauto.
+Qed.
+
+(* ---- the statement on the measures as written *)
+(* a measure after the first: its own extent and number, position counted from its start *)
+Theorem later_measure_spec cp t m0 r k s e n : c_meas cp = m0 :: r -> meas_wf (c_meas cp) ->
+  In (k, (s, e, n)) r -> s <= t < e ->
+  measure_map cp t = Some (s, e) /\ measure_number_map cp t = n /\
+  (meas_contig (c_meas cp) -> metpos cp t = (t - s, e - s)).
+Proof.
+  intros E Hw Hin Ht.
+  assert (exists m0', meas_tbl cp = m0' :: r) as [m0' Et].
+  { destruct (pickup_len cp) as [len|] eqn:Ep.
+    - destruct m0 as [s0 [[x e0] n0]]. rewrite (meas_tbl_pickup _ _ _ _ _ _ _ E Ep). eauto.
+    - rewrite (meas_tbl_nopickup _ Ep), E. eauto. }
+  pose proof (meas_tbl_wf _ Hw) as Hw'.
+  assert (In (k, (s, e, n)) (meas_tbl cp)) as Hin' by (rewrite Et; right; auto).
+  destruct (measure_containing cp t k s e n Hw' Hin' Ht) as [A B].
+  split; auto. split; auto. intros Hc.
+  destruct r as [|m1 r']; [inversion Hin|].
+  eapply metpos_containing; eauto. apply meas_tbl_contig; auto.
+Qed.
+
+(* the first measure: as written when it is not shorter than a full bar; otherwise it is taken to
+   start one (rounded) full bar before its end -- "a pickup is treated as ending a full bar" *)
+Theorem first_measure_spec cp t s0 e0 n0 r : c_meas cp = (s0, (s0, e0, n0)) :: r -> meas_wf (c_meas cp) ->
+  s0 <= t < e0 ->
+  (pickup_len cp = None ->
+     measure_map cp t = Some (s0, e0) /\ measure_number_map cp t = n0 /\
+     (r <> [] -> meas_contig (c_meas cp) -> metpos cp t = (t - s0, e0 - s0))) /\
+  (forall len, pickup_len cp = Some len ->
+     e0 - s0 <= len /\
+     measure_map cp t = Some (e0 - len, e0) /\ measure_number_map cp t = n0 /\
+     (r <> [] -> meas_contig (c_meas cp) -> metpos cp t = (t - (e0 - len), len))).
+Proof.
+  intros E Hw Ht. pose proof (meas_tbl_wf _ Hw) as Hw'. split.
+  - intros Ep. pose proof (meas_tbl_nopickup _ Ep) as Et. rewrite E in Et.
+    assert (In (s0, (s0, e0, n0)) (meas_tbl cp)) as Hin by (rewrite Et; left; auto).
+    destruct (measure_containing cp t _ _ _ _ Hw' Hin Ht) as [A B].
+    split; auto. split; auto. intros Hr Hc. destruct r as [|m1 r']; [congruence|].
+    eapply metpos_containing; eauto. apply meas_tbl_contig; auto.
+  - intros len Ep. pose proof (pickup_len_ge _ _ _ _ _ _ _ E Ep) as Hge.
+    pose proof (meas_tbl_pickup _ _ _ _ _ _ _ E Ep) as Et.
+    assert (In (e0 - len, (e0 - len, e0, n0)) (meas_tbl cp)) as Hin by (rewrite Et; left; auto).
+    assert (e0 - len <= t < e0) as Ht' by lia.
+    destruct (measure_containing cp t _ _ _ _ Hw' Hin Ht') as [A B].
+    split; auto. split; auto. split; auto. intros Hr Hc. destruct r as [|m1 r']; [congruence|].
+    replace len with (e0 - (e0 - len)) at 2 by lia.
+    eapply metpos_containing; eauto. apply meas_tbl_contig; auto.
+Qed.
+
+(* ---- measure numbers: a numbered measure keeps its number, an un-numbered one after a numbered
+   one takes that number *)
+Lemma fill_nums_length : forall l p, List.length (fill_nums p l) = List.length l.
+Proof. induction l; intros; simpl; auto. Qed.
+
+Lemma fill_nums_nth : forall l p i x, nth_error l i = Some x ->
+  nth_error (fill_nums p l) i =
+  Some (match x with
+        | Some n => Some n
+        | None => match i with O => p | S j => match nth_error l j with Some y => y | None => None end end
+        end).
+Proof.
+  induction l as [|a l IH]; intros p i x H; [destruct i; inversion H|].
+  destruct i as [|i]; simpl in *.
+  - inversion H; subst. reflexivity.
+  - rewrite (IH a i x H). destruct x; auto. destruct i; reflexivity.
+Qed.
+
+Theorem measure_numbers_spec l i :
+  List.length (eff_nums l) = List.length l /\
+  (forall n, nth_error l i = Some (Some n) -> nth_error (eff_nums l) i = Some (Some n)) /\
+  (forall j y, i = S j -> nth_error l i = Some None -> nth_error l j = Some y ->
+     nth_error (eff_nums l) i = Some y).
+Proof.
+  unfold eff_nums. split; [apply fill_nums_length|]. split.
+  - intros n H. rewrite (fill_nums_nth _ _ _ _ H). reflexivity.
+  - intros j y -> H Hj. rewrite (fill_nums_nth _ _ _ _ H), Hj. reflexivity.
+Qed.
+
+(* ---- note-array columns *)
+Theorem na_columns_spec cp t :
+  na_ts cp t = ts_map cp t /\ na_ks cp t = ks_map cp t /\
+  (let '(down, pos, len) := na_metrical cp t in (pos, len) = metpos cp t /\ (down = 1 <-> pos = 0) /\ (down = 0 \/ down = 1)).
+Proof.
+  split; [reflexivity|]. split; [reflexivity|].
+  unfold na_metrical. destruct (metpos cp t) as [pos len].
+  split; [reflexivity|]. destruct (pos =? 0) eqn:E; lia.
+Qed.
+
+(* a table with a single element is constant (interp1d's single-sample branch) *)
+Lemma lookup_single {A} first (t0 : Z) (v0 d : A) t : lookup_bf first [(t0, v0)] d t = v0.
+Proof.
+  unfold lookup_bf, backfill. destruct (first <? t0); simpl.
+  - destruct (first <=? t); [destruct (t0 <=? t)|]; reflexivity.
+  - destruct (t0 <=? t); reflexivity.
+Qed.
+
 (* ---- worked example: pickup of 4 divisions in 4/4 at 4 divisions per quarter, then two full bars *)
 Definition ex10 : cpart :=
   mk_cpart (mk_part 0 36 [(0, 4)] [mk_tsig 0 4 4 4] (Some (0, 4))) false
     [(0, (-3, -1)); (20, (2, 1))] 2 [(0, (1, 0, 2, 0)); (20, (1, 1, 4, 0))]
-    [(0, (0, 4, 1)); (4, (4, 20, 2)); (20, (20, 36, 3))].
+    [(0, (0, 4, Some 0)); (4, (4, 20, Some 1)); (20, (20, 36, Some 1))].
 
 Example ex10_values :
-  measure_map ex10 2 = Some (-12, 4) /\ measure_number_map ex10 2 = Some 1 /\ metpos ex10 2 = (14, 16) /\
+  measure_map ex10 2 = Some (-12, 4) /\ measure_number_map ex10 2 = Some 0 /\ metpos ex10 2 = (14, 16) /\
   measure_map ex10 25 = Some (20, 36) /\ metpos ex10 25 = (5, 16) /\
   ts_map ex10 25 = (4, 4, 4) /\ ks_map ex10 19 = (-3, -1) /\ ks_map ex10 20 = (2, 1) /\
   clef_map ex10 25 = [(1, 1, 4, 0); (2, 6, 0, 0)].
 Proof. vm_compute. repeat split; reflexivity. Qed.
 
+(* the hypotheses of first_measure_spec / later_measure_spec are satisfiable: ex10 is well-formed, contiguous,
+   its first measure is a pickup taken to be 16 divisions long; numbering 0, 1, 1 (number 0, repeated number) *)
+Example ex10_hyps :
+  meas_wf (c_meas ex10) /\ meas_contig (c_meas ex10) /\ pickup_len ex10 = Some 16 /\
+  measure_number_map ex10 25 = Some 1 /\ measure_number_map ex10 0 = Some 0.
+Proof. vm_compute. repeat split; try reflexivity; try discriminate. Qed.
+
+(* numbers as written 0, None, 7, None, None: the second takes 0, the fourth 7, the fifth stays without;
+   a first un-numbered measure takes the last one's number as written *)
+Example eff_nums_example :
+  eff_nums [Some 0; None; Some 7; None; None] = [Some 0; Some 0; Some 7; Some 7; None] /\
+  eff_nums [None; Some 3; Some (-2)] = [Some (-2); Some 3; Some (-2)].
+Proof. vm_compute. split; reflexivity. Qed.
+
 (* known finding C10-K1: with a single measure the metrical position is (0, 0), not (t - start, length) *)
 Definition ex10_single : cpart :=
-  mk_cpart (mk_part 0 16 [(0, 4)] [mk_tsig 0 4 4 4] (Some (0, 16))) false [] 1 [] [(0, (0, 16, 1))].
+  mk_cpart (mk_part 0 16 [(0, 4)] [mk_tsig 0 4 4 4] (Some (0, 16))) false [] 1 [] [(0, (0, 16, Some 1))].
 
 Lemma metpos_single_measure_refuted :
   exists cp t s e n, c_meas cp = [(s, (s, e, n))] /\ s <= t < e /\ metpos cp t <> (t - s, e - s).
-Proof. exists ex10_single, 3, 0, 16, 1. split; [reflexivity|]. split; [lia|]. vm_compute. discriminate. Qed.
+Proof. exists ex10_single, 3, 0, 16, (Some 1). split; [reflexivity|]. split; [lia|]. vm_compute. discriminate. Qed.
 
 (* ---- T2: mode and clef-sign codes as the implementation computes them *)
 Definition mode_name (code : Z) : string := if code =? -1 then "minor"%string else "major"%string.
